@@ -150,6 +150,9 @@ pub struct Rendezvous {
 pub struct SimInner {
     pub rv: Mutex<Rendezvous>,
     pub rv_gen: std::sync::atomic::AtomicU64,
+    /// whether read calls count as faultable operations (off by default: they are by far the most
+    /// frequent calls and are not in the list of C08's quantifier)
+    pub read_faults: std::sync::atomic::AtomicBool,
     pub state: Mutex<SimState>,
     locker: InMemoryFileSystem,
     pub sink: Mutex<Option<Arc<TraceSink>>>,
@@ -202,6 +205,7 @@ impl SimFs {
             inner: Arc::new(SimInner {
                 rv: Mutex::new(Rendezvous::default()),
                 rv_gen: std::sync::atomic::AtomicU64::new(0),
+                read_faults: std::sync::atomic::AtomicBool::new(false),
                 state: Mutex::new(SimState {
                     disk,
                     journal: vec![],
@@ -251,6 +255,12 @@ impl SimFs {
         rv.timeout_ms = timeout_ms;
         rv.met = 0;
         met
+    }
+
+    pub fn set_read_faults(&self, on: bool) {
+        self.inner
+            .read_faults
+            .store(on, std::sync::atomic::Ordering::Relaxed);
     }
 
     pub fn set_fault(&self, mode: FaultMode) {
@@ -424,7 +434,11 @@ impl SimHandle {
 
 impl Read for SimHandle {
     fn read(&mut self, buf: &mut [u8]) -> io::Result<usize> {
-        let st = self.fs.state.lock();
+        let fs = Arc::clone(&self.fs);
+        let mut st = fs.state.lock();
+        if fs.read_faults.load(std::sync::atomic::Ordering::Relaxed) {
+            fs.check_fault(&mut st, "read", &self.path)?;
+        }
         let f = match st.disk.inodes.get(&self.inode) {
             Some(f) => f,
             None => return Ok(0),
@@ -474,7 +488,11 @@ impl Write for SimHandle {
 
 impl ReadonlyRandomAccessFile for SimHandle {
     fn read_from(&self, buf: &mut [u8], offset: usize) -> io::Result<usize> {
-        let st = self.fs.state.lock();
+        let fs = Arc::clone(&self.fs);
+        let mut st = fs.state.lock();
+        if fs.read_faults.load(std::sync::atomic::Ordering::Relaxed) {
+            fs.check_fault(&mut st, "read", &self.path)?;
+        }
         let f = match st.disk.inodes.get(&self.inode) {
             Some(f) => f,
             None => return Ok(0),
